@@ -39,6 +39,7 @@ type chunkScenario struct {
 	horizon   time.Duration
 	ping      time.Duration // keepalive ping interval of both ends (0: off)
 	gap       time.Duration // pause of the sender between two messages
+	lag       time.Duration // the sender's stream writes return this late
 }
 
 // TestC14Chunk: every payload length against every chunk size (small ones
@@ -131,6 +132,19 @@ func TestC14Chunk(t *testing.T) {
 			latency: 60 * time.Millisecond, decide: dec, ping: 40 * time.Millisecond,
 			gap: time.Duration(30*(i+1)) * time.Millisecond})
 	}
+	// ... and with stream writes that take longer than the ping interval:
+	// while a chunk is being written the next ping falls due, so when the
+	// write returns the send loop has a ping and the next chunk to choose from
+	for i, n := range []uint8{2, 3, 5, 20} {
+		M := 1 + i%2
+		var lens []int
+		for k := 0; k < 10; k++ {
+			lens = append(lens, 4*M+(k*5+i)%(8*M))
+		}
+		scen = append(scen, chunkScenario{name: "pings-slow-write", M: M, n: n, lens: lens,
+			latency: 60 * time.Millisecond, ping: 20 * time.Millisecond,
+			lag: 30 * time.Millisecond})
+	}
 	for si, sc := range scen {
 		sc := sc
 		beat(map[string]any{"scenario": sc.name, "M": sc.M, "i": si})
@@ -140,6 +154,9 @@ func TestC14Chunk(t *testing.T) {
 		cfg := gbnrun.Config{
 			N: sc.n, Static: time.Second, Latency: sc.latency, Decide: sc.decide,
 			Chunk: sc.M, Horizon: 30 * time.Minute,
+		}
+		if sc.lag > 0 {
+			cfg.SendLag = [2]time.Duration{sc.lag, 0}
 		}
 		if sc.ping > 0 {
 			cfg.Ping = [2]time.Duration{sc.ping, sc.ping}
